@@ -26,6 +26,7 @@ type c03KV struct {
 
 type c03Stanza struct {
 	Pattern    string // as written in the policy (relative to the policy's namespace)
+	LeadSlash  bool   // written with a leading '/' (the parser strips one: paths start after the '/' of the API path)
 	Caps       []string
 	HasAllowed bool
 	Allowed    []c03KV
@@ -85,7 +86,11 @@ func c03TTLString(s int) string {
 func (p c03Policy) HCL() string {
 	var sb strings.Builder
 	for _, s := range p.Stanzas {
-		fmt.Fprintf(&sb, "path %q {\n", s.Pattern)
+		written := s.Pattern
+		if s.LeadSlash {
+			written = "/" + written
+		}
+		fmt.Fprintf(&sb, "path %q {\n", written)
 		q := make([]string, len(s.Caps))
 		for i, c := range s.Caps {
 			q[i] = fmt.Sprintf("%q", c)
